@@ -155,8 +155,7 @@ impl<'a> Dumper<'a> {
             // a type annotation `a: T` is kept as the guard `contains(T, a)`: not a pattern, nothing to evaluate
             ps.guards
                 .iter()
-                .filter(|g| !matches!(g, GuardClause::Condition(Expr::Call(c))
-                    if matches!(c.obj.as_ref(), Expr::Accessor(Accessor::Ident(id)) if &id.inspect()[..] == "contains")))
+                .filter(|g| !matches!(g, GuardClause::Condition(Expr::BinOp(b)) if b.op.kind == TokenKind::ContainsOp))
                 .count() as i128,
         )
     }
